@@ -143,6 +143,11 @@ def main():
         return cmd_scan(args)
     if cmd == 'baseline':
         return cmd_baseline(args)
+    if cmd == 'dyn-build':
+        from vf import dyn
+        b, msg, secs = dyn.build(args[0])
+        print('%s (%.1fs)' % (msg, secs))
+        return 0 if b else 2
     if cmd == 'check':
         from vf import check
         return check.main(args)
